@@ -266,7 +266,8 @@ def directed(tier: str) -> list:
             ("ttp", ["ttp:rls", "ttp:rs"], ["ttp:circ4", "ttp:nl6"], 80),
             ("qap", ["qap:rls", "qap:rs"],
              ["qap:nug12", "qap:lipa20a", "qap:tai12b", "qap:bur26a"], 80),
-            ("tsp", ["tsp:feah"], ["tsp:cn11", "tsp:ulysses16"], 100),
+            ("tsp", ["tsp:feah"], ["tsp:cn11", "tsp:ulysses16", "tsp:gr96"],
+             100),
             ("ttpmo", ["ttpmo:rls", "ttpmo:nsga2"], ["ttpmo:circ6"], 60),
             ("atsp", ["atsp:rls"], ["atsp:br17", "atsp:p43"], 60)):
         docs.append({"domain": dom, "setups": setups, "instances": insts,
@@ -659,8 +660,37 @@ def _inst_data(inst_id: str) -> dict:
                   "dim": int(inst.search_space.dimension)})
     elif dom in ("dc", "dcs"):
         d["dim"] = int(inst.controller.parameter_space().dimension)
+    # The problem data itself: for the bundled instances of the pools a
+    # digest of what the loaders delivered on the pinned tree is on record
+    # (simkit/engines/c12_golden.json, written by tools/make_golden.py). The
+    # oracles below take their distances, flows and item lists from the
+    # loaders, so without it a loader that changes the data would change run,
+    # log and re-evaluation consistently.
+    data = {k: d[k] for k in ("W", "H", "items", "matrix", "flows", "dists",
+                              "dist") if k in d}
+    if data and dom != "instgen":
+        d["data_digest"] = core.digest(data)
+        key = inst_id if dom not in ("atsp", "ttpmo") else {
+            "atsp": "tsp:", "ttpmo": "ttp:"}[dom] + inst_id.split(":", 1)[1]
+        want = _golden().get(key)
+        d["data_pinned"] = want
     _INST_CACHE[inst_id] = d
     return d
+
+
+_GOLDEN: dict = {}
+
+
+def _golden() -> dict:
+    if not _GOLDEN:
+        path = os.path.join(os.path.dirname(os.path.abspath(__file__)),
+                            "c12_golden.json")
+        try:
+            with open(path, encoding="utf-8") as f:
+                _GOLDEN.update(json.load(f))
+        except FileNotFoundError:
+            _GOLDEN["__missing__"] = True
+    return _GOLDEN
 
 
 def _algo_name(setup_id: str, inst_id: str, budget: int) -> str:
@@ -680,6 +710,14 @@ def _truth(dom: str, setup_id: str, inst_id: str, rec: dict, budget: int,
     from simkit.oracles import tsp as torc
     from simkit.oracles import ttp as ttorc
     d = _inst_data(inst_id)
+    if d.get("data_pinned") and d["data_pinned"] != d.get("data_digest"):
+        core.violation(
+            res, "instance-data-differs-from-pinned-record",
+            f"{where}: the problem data the loader delivers for {inst_id} "
+            f"(digest {d.get('data_digest')}) is not the data on record for "
+            f"the pinned tree ({d['data_pinned']}); distances, flows or item "
+            f"lists of a bundled instance changed")
+        return False
     if rec["error_sections"]:
         core.violation(res, "log-has-error-section",
                        f"{where}: sections {rec['error_sections']}")
